@@ -18,6 +18,7 @@ import pfimport  # noqa: F401
 from pfimport import exc_enum
 from pipefunc import NestedPipeFunc
 
+import c10_picker as PK
 import mapgen
 import pipegen
 import terms
@@ -88,6 +89,13 @@ def name_relation(before, after):
     return rel, dup, len(set(outs)) < len(outs)
 
 
+def output_relation(before, after):
+    """{old output name: new output name}, position by position over the functions (functional and injective as long as no output is
+    produced twice) - the wiring-independent part of `name_relation`: a function-level rename can leave a consumer's PARAMETER under
+    the old name, so the relation on all names is not a function then, but the one on output names still is."""
+    return {b: a for (_, bo), (_, ao) in zip(before, after) for b, a in zip(bo, ao)}
+
+
 def rename_state(p):
     """Per function: ((current, original) pairs, names carrying a bound value, names carrying a default) before an update_renames call."""
     return [(fn_pairs(f), set(f.bound), set(f.defaults)) for f in p.functions]
@@ -153,9 +161,9 @@ def build_func(fd, kind):
     """A real PipeFunc for a one-function description (pipegen / mapgen format)."""
     if kind == "map":
         d = dict({"mapspec": None, "mapspec_str": None, "autogen": False, "ret": None, "internal": None, "defaults": [], "bound": []}, **fd)
-        p, _ = mapgen.build({"funcs": [d]}, log=NullLog())
+        p, _ = PK.build_map({"funcs": [d]}, log=NullLog())
     else:
-        p, _ = pipegen.build({"funcs": [fd]}, log=NullLog())
+        p, _ = PK.build_call({"funcs": [fd]}, log=NullLog())
     return p.functions[0]
 
 
@@ -244,6 +252,51 @@ class Ent:
         self.rets = {}              # map pipelines: original output name -> shape of the arrays the wrapped function returns
 
 
+def safe_json(j):
+    """A value JSON the Lean driver can read: what `terms.enc` cannot express in `PF.Val` (a dict, an arbitrary object - only a misbehaving
+    pipefunc hands those out) becomes a reserved string, so that the request never is a `bad` one."""
+    if isinstance(j, dict):
+        if "dict" in j or "opaque" in j:
+            return {"s": "$unencodable:" + repr(j)[:80]}
+        return {k: safe_json(v) for k, v in j.items()}
+    if isinstance(j, list):
+        return [safe_json(x) for x in j]
+    return j
+
+
+def tup_as_arr(j):
+    """The model's `Val.tup` in the form `terms.enc` gives a Python tuple.  Nothing else is touched: `nest_wrap` only re-packs the values
+    it was sent, which are encodings of the implementation's own values (`terms.canon` would interpret constant / sequence-valued calls
+    in them a second time)."""
+    if isinstance(j, dict):
+        if set(j) == {"t"}:
+            return {"arr": [[len(j["t"])], [tup_as_arr(x) for x in j["t"]]]}
+        return {k: tup_as_arr(v) for k, v in j.items()}
+    if isinstance(j, list):
+        return [tup_as_arr(x) for x in j]
+    return j
+
+
+def judge_wraps(runner, resps):
+    """Compare `PF.Rw.Wrap` (driver entry `nest_wrap`) with what the real wrapper / picker did on the same dictionary."""
+    for (req, obs, name, fname), resp in zip(runner.wraps, resps):
+        r = resp["r"]
+
+        def same(impl, model):
+            if "value" in model:
+                return impl == {"value": tup_as_arr(model["value"])}
+            return "err" in impl
+        if not same(obs["ret"], r["ret"]):
+            yield (f"`{fname}` in `{name}`: _NestedFuncWrapper.__call__ on the inner result dictionary differs from the model's wrapperCall",
+                   False, "correspondence:nest-wrapper-return", obs["ret"], r["ret"])
+            continue
+        for (o, got), (o2, m) in zip(obs["outs"], r["outs"]):
+            if not same(got, m):
+                yield (f"`{fname}` in `{name}`: output `{o}` read out of the nested function's return value differs from the model's nestOut",
+                       False, "correspondence:nest-wrapper-pick", got, m)
+                break
+
+
 def kwval(tag):
     return {"s": f"kw:{tag}"}
 
@@ -271,14 +324,29 @@ class Runner:
         self.counts = []
         self.halted = False         # a refused in-place mutation may leave its target half-changed: the history ends there
         self.last = None            # the last performed rewrite: (kind, new name, [old names])
+        self.wraps = []             # ext5: (driver request `nest_wrap`, what the implementation did, pipeline name, nested function name)
         for name, d in env_descs:
+            try:
+                self._add_env(name, d)
+            except Exception as e:  # noqa: BLE001   (ext5) building / first observation of a generated, valid pipeline raised: an observation
+                self.counts.append(f"build-raised:{exc_enum(e)}")
+                self.problems.append((f"building the generated pipeline `{name}` and evaluating it raises {exc_enum(e)}: {str(e)[:120]}", True, None,
+                                      {"err": exc_enum(e), "msg": str(e)[:200]}, None))
+                self.env.pop(name, None)
+                self.env_req = [x for x in self.env_req if x[0] != name]
+                del self.history[:], self.plan[:]
+                self.halted = True
+                break
+
+    def _add_env(self, name, d):
+        if True:
             desc = d["desc"]
             if d["kind"] == "call":
-                p, _ = pipegen.build(desc, log=NullLog(), defaults_in_signature=not d.get("explicit_defaults", False))
-                funcs = desc["funcs"]
+                p, _ = PK.build_call(desc, log=NullLog(), defaults_in_signature=not d.get("explicit_defaults", False))
+                funcs = PK.strip(desc["funcs"])
                 ent = Ent(p, "call", {}, {})
             else:
-                p, _ = mapgen.build(desc, log=NullLog())
+                p, _ = PK.build_map(desc, log=NullLog())
                 funcs = mapgen.model_request(desc)["funcs"]
                 ent = Ent(p, "map", {}, {}, inputs={k: v for k, v in desc["inputs"]}, internal=[list(x) for x in desc["internal"]],
                           kinds=dict(desc["input_kinds"]))
@@ -391,6 +459,21 @@ class Runner:
 
     # ------------------------------------------------------------------ ops
     def apply(self, op):
+        """`_apply`, never raising (ext5): whatever pipefunc - or replaying what it did: reading names, summaries, root arguments of the
+        objects it returned - raises outside the places that already expect an exception is an OBSERVATION: the op's partial model steps are
+        taken back (so that history and plan stay aligned), the failure is reported with this case as its replay, the history ends."""
+        marks = (len(self.history), len(self.plan), len(self.wraps))
+        try:
+            return self._apply(op)
+        except Exception as e:  # noqa: BLE001
+            del self.history[marks[0]:], self.plan[marks[1]:], self.wraps[marks[2]:]
+            self.counts.append(f"op-raised:{op.get('op')}:{exc_enum(e)}")
+            self.problems.append((f"{op.get('op')}: performing the operation and observing its result raises {exc_enum(e)}: {str(e)[:120]}", True, None,
+                                  {"err": exc_enum(e), "msg": str(e)[:200]}, None))
+            self.halted = True
+            return False
+
+    def _apply(self, op):
         """Returns True when the implementation performed the op."""
         kind = op["op"]
         self.counts.append(f"op:{kind}")
@@ -434,6 +517,7 @@ class Runner:
                 before_names, rstate = names_of(p), rename_state(p)
                 quiet(p.update_renames, dict(op["map"]), update_from="original" if op["from_original"] else "current", overwrite=bool(op["overwrite"]))
                 rel, dup, dup_out = name_relation(before_names, names_of(p))
+                orel = output_relation(before_names, names_of(p))
                 if dup or dup_out:
                     # two names of one function / two producers became one: a capture, outside the property
                     self.counts.append("capture:rename_x")
@@ -476,8 +560,15 @@ class Runner:
                 p = quiet(src.p.copy)
                 sel = {p.output_to_func[o].output_name for o in op["sel"]}
                 out = op.get("out")
-                new_name = None if out is None else (out[0] if len(out) == 1 else tuple(out))
-                quiet(p.nest_funcs, sel, new_name)
+                new_name = None if out is None else (out[0] if len(out) == 1 and not op.get("tuple1") else tuple(out))     # tuple1: `("o",)`
+                if op.get("via") == "ctor":
+                    # the same through the constructor: NestedPipeFunc(functions, output_name) put into a new Pipeline with the rest
+                    inner = [f for f in p.functions if f.output_name in sel]
+                    rest = [f for f in p.functions if f.output_name not in sel]
+                    nest = quiet(NestedPipeFunc, inner, output_name=new_name)
+                    p = quiet(type(p), rest + [nest])
+                else:
+                    quiet(p.nest_funcs, sel, new_name)
                 loose = bool(op.get("malformed"))
             elif kind == "simplify":
                 p = quiet(src.p.simplified_pipeline, op["out"], conservatively_combine=op["conservative"])
@@ -512,6 +603,8 @@ class Runner:
         used_src = used_names(src.p)
         tags = {rho(r): t for r, t in src.tags.items() if r in used_src}
         labels = {rho(o): l for o, l in src.labels.items() if o in used_src}
+        if kind == "rename_x":      # output names follow the functions' own outputs (a name may also stay behind as somebody's parameter)
+            labels = {orel.get(o, rho(o)): l for o, l in src.labels.items() if o in used_src}
         inputs, kinds, internal = dict(src.inputs), dict(src.kinds), [[rho(o), s] for o, s in src.internal]
         if kind == "rename_x":
             for o_, n_ in sorted(rel):          # a name that split: every new name carries the old one's tag / label
@@ -535,8 +628,16 @@ class Runner:
         self.history.append(self.model_op(op))
         self.plan.append({"kind": "op", "op": op, "impl": {"ok": True, "summary": summary(p)}})
         self.observe(op["dst"])
+        if any(isinstance(f, NestedPipeFunc) for f in p.functions) and not ent.loose:
+            self.wrap_check(op["dst"], kind)
         if kind in ("nest", "simplify"):
+            self.picker_categories(kind, ent.p)
             self.nested_under_map(op, src, ent)
+        elif any(PK.style_of(f) for f in p.functions):
+            self.counts.append(f"cat:picker:{kind}:on-a-pipeline-with-a-custom-picker")
+            if kind in ("rename", "rename_x", "scope", "scope_sel") and any(
+                    PK.style_of(f) and at_least_tuple(f.output_name) != at_least_tuple(f._output_name) for f in p.functions):
+                self.counts.append(f"cat:picker:{kind}:output-of-a-custom-picker-function-renamed")
         # --- the property, on the implementation alone: every retained output computes what it computed before
         sources = [(op["src"], src, rho)] + ([(op["other"], other, lambda n: n)] if other is not None else [])
         for sname, s_ent, r in sources:
@@ -574,6 +675,85 @@ class Runner:
         self.last = ("scope" if kind == "scope_sel" else "rename" if kind == "rename_x" else kind, op["dst"], [op["src"]] + ([op["other"]] if other is not None else []))
         return True
 
+    def wrap_check(self, name, kind):
+        """ext5: the way OUT of every NestedPipeFunc of the call pipeline `name`, step by step on the real objects: the dictionary that
+        `call_full_output` returns (`nf.func.func`), the return value of `_NestedFuncWrapper.__call__` (`nf.func`) and what the nested
+        function's picker reads out of it for every output.  Property, on the implementation alone: every exported output is the inner
+        pipeline's value for that name.  The same dictionary goes to the driver (`nest_wrap`: `PF.Rw.Wrap.wrapperCall/nestOut`, the
+        functions `C10_nest_wrapper_roundtrip` / `C10_nest_call_*` are about); the answers are compared in `judge_wraps`."""
+        ent = self.env[name]
+        if ent.kind != "call":
+            return
+        for nf in ent.p.functions:
+            if not isinstance(nf, NestedPipeFunc):
+                continue
+            try:
+                inner_names = at_least_tuple(nf._output_name)
+                cur_names = at_least_tuple(nf.output_name)
+                args = {}
+                for orig in nf.original_parameters:
+                    cur = nf.renames.get(orig, orig)
+                    if cur in nf.bound:
+                        args[orig] = nf.bound[cur]
+                    elif cur in ent.p.all_output_names:
+                        args[orig] = quiet(ent.p, cur, **{r: terms.dec(kwval(ent.tags.get(r, r))) for r in ent.p.root_args(cur)})
+                    else:
+                        args[orig] = terms.dec(kwval(ent.tags.get(cur, cur)))
+                wrapper = nf.func
+                rd = quiet(wrapper.func, **args)
+            except Exception as e:  # noqa: BLE001   the evaluation itself is judged by `observe`
+                self.counts.append(f"wrap:not-evaluated:{exc_enum(e)}")
+                continue
+            obs = {"rd_keys": sorted(str(k) for k in rd)}
+            try:
+                ret = quiet(wrapper, **args)
+                obs["ret"] = {"value": safe_json(terms.enc(ret))}
+            except Exception as e:  # noqa: BLE001
+                ret, obs["ret"] = None, {"err": exc_enum(e), "msg": str(e)[:120]}
+            outs = []
+            for cur, orig in zip(cur_names, inner_names):
+                if "err" in obs["ret"]:
+                    outs.append([orig, dict(obs["ret"])])
+                    continue
+                try:
+                    v = ret if isinstance(nf.output_name, str) else nf.output_picker(ret, cur)
+                    outs.append([orig, {"value": safe_json(terms.enc(v))}])
+                except Exception as e:  # noqa: BLE001
+                    outs.append([orig, {"err": exc_enum(e), "msg": str(e)[:120]}])
+            obs["outs"] = outs
+            rdj = [[k, safe_json(terms.enc(v))] for k, v in rd.items() if isinstance(k, str)]
+            want = dict((k, {"value": v}) for k, v in rdj)
+            self.counts.append(f"wrap:checked:{kind}:{'single' if isinstance(nf._output_name, str) else 'tuple'}"
+                               f"{':dict-has-the-tuple-key' if nf._output_name in rd and isinstance(nf._output_name, tuple) else ''}")
+            for orig, got in outs:
+                if got != want.get(orig):
+                    self.problems.append((f"{kind}: output `{orig}` of `{nf.__name__}` in `{name}` is not the value the inner pipeline computed for `{orig}` "
+                                          f"(call_full_output -> _NestedFuncWrapper -> output_picker)", True, None, got, want.get(orig)))
+                    break
+            req = {"single": isinstance(nf._output_name, str), "names": list(inner_names), "rd": rdj, "picks": list(inner_names)}
+            if cur_names != inner_names and isinstance(nf._output_name, tuple):
+                req["cur"] = list(cur_names)          # a renamed / scoped nest: `PF.Rw.Wrap.nestOutCur` (C10_nest_wrapper_renamed), compared by position
+                self.counts.append(f"wrap:checked:{kind}:outputs-of-the-nest-renamed")
+            self.wraps.append(({"m": "nest_wrap", "a": req}, obs, name, nf.__name__))
+
+    def picker_categories(self, kind, p):
+        """ext5 coverage counters: what the NestedPipeFuncs of a freshly nested / simplified pipeline export, and from which kind of leaf."""
+        try:
+            for nf in p.functions:
+                if not isinstance(nf, NestedPipeFunc):
+                    continue
+                leaf = nf.pipeline.unique_leaf_node
+                styles = sorted({PK.style_of(g) for g in nf.pipeline.functions if PK.style_of(g)})
+                lstyle = PK.style_of(leaf) or ("default" if isinstance(leaf.output_name, tuple) else "single")
+                if styles:
+                    self.counts.append(f"cat:picker:{kind}:nest-contains-custom-picker")
+                if isinstance(leaf.output_name, tuple):
+                    exact = nf._output_name == leaf.output_name
+                    perm = not exact and isinstance(nf._output_name, tuple) and sorted(nf._output_name) == sorted(leaf.output_name)
+                    self.counts.append(f"cat:picker:{kind}:exports-{'exactly-the-leaf-tuple' if exact else 'a-permutation-of-the-leaf-tuple' if perm else 'other'}:leaf-{lstyle}")
+        except Exception as e:  # noqa: BLE001
+            self.counts.append(f"cat:picker:unreadable:{exc_enum(e)}")
+
     def nested_under_map(self, op, src, ent):
         """nest_funcs / simplified_pipeline "under map" (round 4).  MapSpec pipelines: the new object was just mapped by `observe`
         (every retained output is compared with the old map below and with the model) - here a map that fails as a whole where the
@@ -588,6 +768,13 @@ class Runner:
                                       f"where the map of the old one ran", True, None, ent.vals["*"], "ran"))
             return
         if any(f.mapspec is not None for f in ent.p.functions) or any(f.mapspec is not None for f in src.p.functions):
+            return
+        fnames = [f.__name__ for f in ent.p.functions]
+        if len(set(fnames)) < len(fnames):
+            # the map model tells functions apart by NAME; a NestedPipeFunc is named after its inner output names, so a scoped nest
+            # (`NestedPipeFunc_o2` exporting `T.o2`) joined with its origin and simplified again gives two functions of one name
+            # (the model then reports a cycle; 1 case in 12 033, ext5 thorough seed 1).  The call-level checks above still apply.
+            self.counts.append("nested-under-map:skipped:two-functions-of-one-name")
             return
         old_map = self.run_map_plain(src)
         new_map = self.run_map_plain(ent)
@@ -628,7 +815,10 @@ class Runner:
         self.halted = True
 
     def model_op(self, op):
-        return {k: v for k, v in op.items() if k not in ("malformed", "via", "sibling", "pair", "after", "which")}
+        m = {k: v for k, v in op.items() if k not in ("malformed", "via", "sibling", "pair", "after", "which", "tuple1")}
+        if isinstance(m.get("func"), dict) and "picker" in m["func"]:
+            m["func"] = {k: v for k, v in m["func"].items() if k != "picker"}      # the picker style is invisible in the values
+        return m
 
     def scope_categories(self, p, op):
         """Which of the update_scope argument forms a (selective) scope op exercises."""
@@ -694,6 +884,7 @@ class Runner:
                 quiet(target_obj.update_renames, dict(op["map"]), update_from="original" if op["from_original"] else "current",
                       overwrite=bool(op["overwrite"]))
                 rel, dup, dup_out = name_relation(before_names, names_of(ent.p))
+                orel = output_relation(before_names, names_of(ent.p))
                 if dup or dup_out:
                     self.counts.append(f"capture:{kind}")
                     self.halted = True          # the object was changed in place into something outside the property
@@ -752,12 +943,16 @@ class Runner:
         ent.tags = {rho(r): t for r, t in ent.tags.items()}
         ent.labels = {rho(o): l for o, l in ent.labels.items()}
         if kind in MUTATIONS_X:
+            # ext5: output names follow the functions' own outputs; `mut_frename` may leave the old name behind as a consumer's parameter,
+            # so `rho` (first image on ALL names) can send two outputs to one name (false alarm found on quick seed 0)
+            ent.labels = {orel.get(o, rho(o)): l for o, l in old_labels.items()}
+        if kind in MUTATIONS_X:
             for o_, n_ in sorted(rel):          # a name that split: every new name carries the old one's tag / label
                 if o_ in old_tags:
                     ent.tags.setdefault(n_, old_tags[o_])
                 if o_ in old_labels:
                     ent.labels.setdefault(n_, old_labels[o_])
-        ent.internal = [[rho(o), sh] for o, sh in ent.internal]
+        ent.internal = [[(orel.get(o, rho(o)) if kind in MUTATIONS_X else rho(o)), sh] for o, sh in ent.internal]
         if kind in ("mut_add", "mut_replace"):
             for o in op["func"]["outputs"]:
                 ent.labels[o] = o           # a fresh function: its terms record its own names
@@ -844,7 +1039,8 @@ class Runner:
             self.history.append({"op": "map", "target": op["src"],
                                  "inputs": [[r, pin[src.tags.get(r, r)]] for r in self.roots(src.p) if src.tags.get(r, r) in pin],
                                  "internal": src.internal})
-            self.plan.append({"kind": "map", "name": op["src"], "impl": point[n], "labels": dict(src.labels), "pointwise": n})
+            self.plan.append({"kind": "map", "name": op["src"], "impl": point[n], "labels": dict(src.labels), "pointwise": n,
+                              "top": top_names(src.p)})      # ext5: was missing - picks inside a renamed nest were relabelled (latent false alarm)
             self.counts.append("add_axis:pointwise-run-compared-with-model")
         ent = Ent(p, "map", dict(src.tags), dict(src.labels), dict(src_inputs, **{tag: stacked}), [list(x) for x in src.internal],
                   dict(src.kinds, **{tag: "array"}))
@@ -956,7 +1152,13 @@ def judge_model(runner, steps):
                 if op["op"] in ("nest", "simplify"):
                     ri, rm = impl_reason(impl), model_reason(st)
                     runner.counts.append(f"refusal-reason:{op['op']}:{ri}/{rm}")
-                    if ri != rm and "other" not in (ri, rm):
+                    if (ri != rm and {ri, rm} <= {"combine:in-out", "combine:inputs", "combine:outputs"} and op["op"] == "nest"
+                            and len(op.get("sel", [])) >= 3):
+                        # `_validate_combinable_mapspecs` compares every MapSpec with the FIRST one; `nest_funcs` takes a SET of names, so
+                        # with three or more selected functions which of several applicable reasons is reported depends on the iteration
+                        # order of a Python set (hash seed) - not a fact of the code (found in the ext5 thorough run; two functions: no)
+                        runner.counts.append("refusal-reason:nest:order-dependent-among-index-reasons")
+                    elif ri != rm and "other" not in (ri, rm):
                         yield (f"{op['op']} is refused by both, but the implementation's reason is `{ri}` ({impl.get('msg', '')[:70]}) and the model's `{rm}`",
                                False, f"correspondence:{op['op']}-refusal-reason", impl, st)
                 if st["err"] in CLASS_CHECKED.get(op["op"], ()) and impl_class(impl["err"]) != st["err"]:
